@@ -121,7 +121,9 @@ func (m *Packet) Clone() fatchoy.IPacket {
 
 func (m *Packet) Errno() int32 {
 	if (m.Flg & fatchoy.PFlagError) != 0 {
-		return m.Cmd
+		if ec, ok := m.Body_.(int64); ok {
+			return int32(ec)
+		}
 	}
 	return 0
 }
